@@ -1,9 +1,86 @@
 import PestModel.Model.Pratt
-/-! # C13 — placeholder until the proofs land. -/
+import PestModel.Lemmas.Pratt
+import PestModel.Lemmas.PrattClimber
+/-!
+# C13 — operator-precedence parsers build the precedence-correct tree
+
+Property theorems only; helper lemmas in `PestModel/Lemmas/Pratt*.lean`.
+`parse` models `PrattParserMap::parse` (`expr/nud/led/lbp`), `climb` models `PrecClimber::climb`,
+`shuntingYard` is the classical operator-precedence algorithm with the binding powers named in
+the property (left power `p`; right power `p` for left-associative infix, `p - 1` for
+right-associative infix and prefix operators).
+-/
 namespace PestModel.C13
 open PestModel.Pratt
 
-theorem smoke : shuntingYard (prattTable [[(1, .infix .left)], [(2, .infix .left)]]) [9, 1, 9, 2, 9]
-    = some (.inf (.prim 9) 1 (.inf (.prim 9) 2 (.prim 9))) := by decide
+/-- All precedences in the table are positive (true of every table `PrattParser::op` and
+`ConstPrattParser::new_const` can build: levels are 10, 20, 30, …). -/
+def PosTable (t : Table) : Prop := ∀ r a p, t r = some (a, p) → 1 ≤ p
+
+theorem prattTable_pos (levels : List (List (Nat × Affix))) : PosTable (prattTable levels) := by
+  exact prattTable_pos' levels
+
+theorem constTable_pos (ops : List (Nat × Affix × Bool)) (h : ∀ r a b rest, ops = (r, a, b) :: rest → b = true) :
+    PosTable (constTable ops) := by
+  exact constTable_pos' ops h
+
+/-- On every well-formed sequence the Pratt parser does not panic, does not run out of the model's
+fuel, and consumes all tokens. -/
+theorem pratt_total (t : Table) (toks : List Nat) (hpos : PosTable t) (hwf : WellFormed t toks) :
+    ∃ tree, parse t toks = .ok (tree, []) := by
+  exact parse_total hpos hwf
+
+/-- Every operator is applied exactly once and operand order is preserved: the in-order yield of
+the result (plus the unconsumed rest) is the token sequence. -/
+theorem pratt_yield (t : Table) (toks rest : List Nat) (tree : Tree)
+    (h : parse t toks = .ok (tree, rest)) : tree.yield ++ rest = toks := by
+  exact (yield_all t _).1 _ _ _ _ h
+
+/-- **Main theorem.** For every table and every well-formed sequence the Pratt parser builds
+exactly the tree of the classical shunting-yard algorithm. -/
+theorem pratt_eq_shuntingYard (t : Table) (toks : List Nat) (hpos : PosTable t)
+    (hwf : WellFormed t toks) :
+    ∃ tree, parse t toks = .ok (tree, []) ∧ shuntingYard t toks = some tree := by
+  obtain ⟨tree, h⟩ := parse_total hpos hwf
+  exact ⟨tree, h, parse_sim h⟩
+
+/-- The tree depends only on the affixes and on the *order* of the precedence levels. -/
+theorem levels_iso (t t' : Table) (toks : List Nat) (hpos : PosTable t) (hpos' : PosTable t')
+    (haff : ∀ r, (t r).map (·.1) = (t' r).map (·.1))
+    (hord : ∀ r₁ r₂ a₁ a₂ p₁ p₂ q₁ q₂, t r₁ = some (a₁, p₁) → t r₂ = some (a₂, p₂) →
+      t' r₁ = some (a₁, q₁) → t' r₂ = some (a₂, q₂) → (p₁ < p₂ ↔ q₁ < q₂)) :
+    parse t toks = parse t' toks := by
+  exact parse_iso ⟨hpos, hpos', haff, hord⟩ toks
+
+/-- `ConstPrattParser` (array built by `pratt_precedence!`) gives the same result as `PrattParser`
+built with `.op(...)` from the same levels — on every token sequence. -/
+theorem const_eq_pratt (levels : List (List (Nat × Affix))) (toks : List Nat)
+    (hne : ∀ l ∈ levels, l ≠ []) :
+    parse (constTable (flattenLevels levels)) toks = parse (prattTable levels) toks := by
+  exact parse_iso (const_iso_pratt levels hne) toks
+
+/-- Infix-only levels as a Pratt table. -/
+def toPrattLevels (cl : List (List (Nat × Assoc))) : List (List (Nat × Affix)) :=
+  cl.map fun l => l.map fun (r, a) => (r, Affix.infix a)
+
+/-- The deprecated `PrecClimber` builds the same tree for infix-only tables whose levels each have
+a single associativity (rules distinct), on well-formed sequences. -/
+theorem climber_eq (cl : List (List (Nat × Assoc))) (toks : List Nat)
+    (hdistinct : (cl.flatten.map (·.1)).Nodup)
+    (hsingle : ∀ l ∈ cl, ∀ x ∈ l, ∀ y ∈ l, x.2 = y.2)
+    (hwf : WellFormed (prattTable (toPrattLevels cl)) toks) :
+    ∃ tree, climb (climberTable cl) toks = .ok (tree, []) ∧
+      parse (prattTable (toPrattLevels cl)) toks = .ok (tree, []) := by
+  exact climb_eq_parse cl hdistinct hsingle hwf
+
+/-- Non-vacuity: a well-formed sequence mixing prefix, postfix, left and right infix operators
+within one table; the hypotheses of the theorems are satisfiable and the tree is non-trivial. -/
+example :
+    let t := prattTable [[(1, .infix .left), (2, .infix .right)], [(3, .prefix)], [(4, .postfix)]]
+    WellFormed t [3, 9, 4, 1, 9, 2, 3, 9] ∧
+    shuntingYard t [3, 9, 4, 1, 9, 2, 3, 9] =
+      some (.inf (.inf (.pre 3 (.post (.prim 9) 4)) 1 (.prim 9)) 2 (.pre 3 (.prim 9))) := by
+  intro t
+  refine ⟨by unfold WellFormed; decide, by decide⟩
 
 end PestModel.C13
